@@ -1,15 +1,76 @@
-(** C06 — Operations are non-blocking. (interim) *)
+(** C06 — Operations are non-blocking: a stalled or dead peer never prevents progress.
+
+    What is kernel-checked here: the step bounds and lock-freedom, for every
+    pool of participants and every schedule (a frozen participant is one that
+    the schedule never mentions again; a dead one likewise).  That an operation
+    run alone also SUCCEEDS from every reachable state is established by the
+    frozen-peer exploration (vlib/c06.py), not by a theorem. *)
 From Coq Require Import List NArith ZArith String Bool.
-From Kismet Require Import FS.Fs FS.Prog Conc.Pool.
+From Kismet Require Import FS.Fs FS.Prog Ops.Ops Spec.Wp Spec.CountMon Conc.Pool Conc.PoolProofs Proofs.PoolLift.
 Import ListNotations.
-(** Scheduling one participant never changes another participant's program or private state. *)
+Local Open Scope Z_scope.
+
+(** Scheduling one participant never changes another participant's program,
+    private state or trace: nobody waits for anybody. *)
 Theorem C06_step_leaves_others : forall A (pool : list (thread A)) f i j,
   i <> j -> nth_error (fst (pool_step i (pool, f))) j = nth_error pool j.
-Proof.
-  intros A pool f i j Hij. unfold pool_step.
-  destruct (nth_error pool i) as [t|] eqn:Hi; [|reflexivity].
-  destruct (finished (th_prog t)); [reflexivity|].
-  destruct (th_slot t f) as [t' f']. cbn [fst].
-  clear Hi. revert i j Hij. induction pool as [|x l IH]; intros i j Hij; [destruct i; reflexivity|].
-  destruct i, j; cbn; try reflexivity; try congruence. apply IH. congruence.
-Qed.
+Proof. exact step_leaves_others. Qed.
+
+(** A participant's own slot always executes (there is no blocked state): an
+    unfinished participant that is scheduled performs its pending call. *)
+Theorem C06_scheduled_call_executes : forall A (t : thread A) c k f,
+  th_prog t = Call c k ->
+  exists r tr, th_trace (fst (th_slot t f)) = (th_trace t ++ EvCall c r :: tr)%list.
+Proof. exact scheduled_call_executes. Qed.
+
+(** Step bounds in any pool under any schedule: get, touch, set and put issue at
+    most a configuration-only number of calls by the time they complete, unless
+    maintenance was requested of them. *)
+Theorem C06_get_bounded_in_any_pool : forall cfg k, s_checker cfg = None ->
+  bounded_in_any_pool (cache_get cfg k) (stack_get_budget cfg).
+Proof. intros. eapply cnt_pool, cnt_cache_get; auto. Qed.
+Theorem C06_touch_bounded_in_any_pool : forall cfg k, bounded_in_any_pool (cache_touch cfg k) (stack_touch_budget cfg).
+Proof. intros. eapply cnt_pool, cnt_cache_touch. Qed.
+Theorem C06_set_bounded_in_any_pool : forall cfg k v, bounded_in_any_pool (cache_set cfg k v) (stack_write_budget cfg).
+Proof. intros. eapply cnt_pool, cnt_cache_set. Qed.
+Theorem C06_put_bounded_in_any_pool : forall cfg k v, bounded_in_any_pool (cache_put cfg k v) (stack_write_budget cfg).
+Proof. intros. eapply cnt_pool, cnt_cache_put. Qed.
+
+(** Alone (everybody else frozen) is a special case of a schedule, and there it
+    coincides with the sequential semantics. *)
+Theorem C06_alone_is_sequential : forall A fuel (p : prog A) w o p' w1 o1 tr1 a,
+  slots fuel p w o = (p', w1, o1, tr1) -> p' = Ret a -> run p w o = (a, w1, o1, tr1).
+Proof. exact @slots_run_finished. Qed.
+
+(** With everybody else frozen forever, every operation finishes after finitely
+    many of its own slots, from every filesystem state and environment. *)
+Theorem C06_alone_terminates : forall A (p : prog A) w o, exists n, finished (prog_of (slots n p w o)) = true.
+Proof. exact @alone_terminates. Qed.
+
+(** No lock, lock file or wait in the vocabulary: a program can only issue these calls. *)
+Theorem C06_no_lock_in_vocabulary : forall c : call,
+  match c with
+  | COpen _ _ | CCreate _ _ | CCreateTrunc _ _ | COpenTmp _ | CClose _ | CFstat _ | CStat _ _ | CRead _ _
+  | CWrite _ _ | CCopy _ _ | CSeek _ _ | CFchmod _ _ | CChmod _ _ | CFutimens _ _ _ | CFsync _
+  | CRename _ _ | CLink _ _ | CUnlink _ | CMkdir _ | COpenDir _ | CReadDir _ | CCloseDir _ => True
+  end.
+Proof. intros c. destruct c; exact I. Qed.
+
+(** Non-vacuity: two participants looking up the same key of a populated
+    directory, interleaved call by call; both finish, each with 3 calls. *)
+Definition ex_fs : fs :=
+  let mk (f : fs) (name : string) (m a : Z) :=
+    let '(f1, i) := alloc_inode f (mkInode false [65%N] 292 m a 1 true) in
+    set_names f1 ((["w"%string; name], i) :: names f1) in
+  let '(f0, d) := alloc_inode empty_fs (mkInode true [] 493 0 0 2 true) in
+  let f0 := set_names f0 ((["w"%string], d) :: names f0) in
+  mk f0 "a"%string 100 50.
+Definition ex_cfg : stack_cfg := mkStack 0 (Some (FPlain ["w"%string] 300)) [] None true ["systmp"%string].
+Definition ex_oracle : oracle := mkOracle [1000; 1001] [] [] [] [] None 0 1 Relatime.
+Example C06_bound_nonvacuous :
+  let k := mkKey "a"%string 1 2 in
+  let t0 := fst (th_start (cache_get ex_cfg k) ex_oracle ex_fs) in
+  let '(pool, _) := run_sched [0; 1; 0; 1; 1; 0]%nat ([t0; t0], ex_fs) in
+  map (fun t => (finished (th_prog t), mon_run c_step (0, true) (th_trace t))) pool
+  = [(true, Some (3, true)); (true, Some (3, true))].
+Proof. vm_compute. reflexivity. Qed.
